@@ -29,7 +29,7 @@ def parseMsg : List String → Option Msg
   | ["app", h] => do some (.appData (← ofHex h))
   | ["ku", v] => do some (.keyUpdate (← v.toNat?))
   | ["nst"] => some .newSessionTicket
-  | ["creq", c, e] => do some (.certRequest (← c.toNat?) (← b01 e))
+  | ["creq", c, e] => do some (.certRequest (← c.toNat?) (← e.toNat?))
   | ["cert", c, ch] => do some (.certificate (← c.toNat?) (← ch.toNat?))
   | ["cv", a, c, s] => do some (.certVerify (← b01 a) (← b01 c) (← b01 s))
   | ["fin", o] => do some (.finished (← b01 o))
@@ -52,7 +52,8 @@ def parseOp : List String → Option Op
     let mn ← mn.toNat?
     if mx == "-" then some (.read none mn) else some (.read (some (← mx.toNat?)) mn)
   | ["ku", r] => do some (.keyUpdate (← b01 r))
-  | ["pha"] => some .requestClientAuth
+  | ["pha"] => some (.requestClientAuth 0)
+  | ["pha", n] => do some (.requestClientAuth (← n.toNat?))
   | ["hb", h, p] => do some (.heartbeat (← ofHex h) (← p.toNat?))
   | ["close"] => some .close
   | ["makefile"] => some .makefile
@@ -169,6 +170,10 @@ def handle (w : World) : List String → World × Option String
       | .ok (rs, p) => (w, some s!"ok {rs.length} pend={bit p.isSome}")
       | .error d => (w, some s!"err {d}")
     | _, _ => (w, none)
+  | ["sessionafter", ends] =>
+    match ends.toList.mapM (fun c => if c == 'o' then some ConnEnd.orderly else if c == 'f' then some ConnEnd.fatal else none) with
+    | some es => (w, some s!"resumes={bit (nextResumes es)}")
+    | none => (w, none)
   | ["hsalert", lvl, d] =>
     match lvl.toNat?, d.toNat? with
     | some lvl, some d =>
